@@ -231,7 +231,7 @@ Proof.
         assert (L : zlen (pq s) < pcap s).
         { unfold room, pending in Hroom. rewrite Er in Hroom. cbn [ritems] in Hroom. rewrite zlen_cons in Hroom.
           pose proof (zlen_nonneg r). pose proof (initems_nonneg (incoming s)). destruct (reply s); lia. }
-        apply Z.ltb_lt in L. rewrite L. eexists; reflexivity.
+        apply Z.ltb_lt in L. rewrite Hho, L. eexists; reflexivity.
       * eexists; reflexivity.
     + exists LCloser. cbn [step]. unfold closer_step. rewrite Ec.
       assert (E0 : rd s = 0) by lia. rewrite E0, Hwh. cbn. eexists; reflexivity.
@@ -318,4 +318,59 @@ Proof.
   intros ls. induction ls as [|l r IH]; intros s H; [exact H|].
   change (exec s (l :: r)) with (exec (exec1 s l) r). apply IH. unfold exec1.
   destruct (step s l) as [s'|] eqn:E; [exact (kinv_step s l s' H E) | exact H].
+Qed.
+
+(* ------------------------------------------------------------------ packets for a closed channel *)
+
+(* the only step of the reader that touches the channel's queues is the send in RHold; after Close it would be a send
+   on a nil channel (blocked for ever, read lock held).  It is never reached: under EVERY schedule after the channel
+   was marked closed the reader is not at a send *)
+Lemma no_send_on_closed : forall F s ls, inv F s -> closed s = true ->
+  match rp (exec s ls) with RHold _ => False | _ => True end.
+Proof.
+  intros F s ls Hi Hc.
+  destruct (closed_exec F ls s Hi Hc) as [Hc' _].
+  destruct (inv_exec F ls s Hi) as [_ [_ [_ [_ [_ [Hho _]]]]]].
+  destruct (rp (exec s ls)); try exact I. congruence.
+Qed.
+
+(* WritePacket on a closed channel, for ANY packet content (the items a header-only packet or a packet with a body
+   would yield): read lock, closed check, unlock - three moves, nothing delivered, nothing changed *)
+Lemma closed_drops : forall s items,
+  closed s = true -> wpend s = false -> wheld s = false -> rp s = RLockCh items ->
+  rp (run_reader 3 s) = RTop /\ pq (run_reader 3 s) = pq s /\ rd (run_reader 3 s) = rd s /\
+  cerr (run_reader 3 s) = cerr s /\ closed (run_reader 3 s) = true /\ incoming (run_reader 3 s) = incoming s.
+Proof.
+  intros s items Hc Hp Hh Er.
+  assert (E1 : exists s1, reader_step s = Some s1 /\ rp s1 = RChk items /\ closed s1 = true /\ pq s1 = pq s /\
+                          rd s1 = rd s + 1 /\ cerr s1 = cerr s /\ incoming s1 = incoming s).
+  { unfold reader_step. rewrite Er, Hp, Hh. cbn [orb]. eexists. split; [reflexivity|].
+    cbn [rp closed pq rd cerr incoming]. repeat split; try reflexivity. exact Hc. }
+  destruct E1 as [s1 [E1 [R1 [C1 [Q1 [D1 [X1 I1]]]]]]].
+  assert (E2 : reader_step s1 = Some (set_r s1 RUnlock)).
+  { unfold reader_step. rewrite R1, C1. reflexivity. }
+  assert (E3 : exists s3, reader_step (set_r s1 RUnlock) = Some s3 /\ rp s3 = RTop /\ closed s3 = closed s1 /\ pq s3 = pq s1 /\
+                          rd s3 = rd s1 - 1 /\ cerr s3 = cerr s1 /\ incoming s3 = incoming s1).
+  { unfold reader_step, set_r. cbn [rp]. eexists. split; [reflexivity|].
+    cbn [rp closed pq rd cerr incoming]. repeat split; reflexivity. }
+  destruct E3 as [s3 [E3 [R3 [C3 [Q3 [D3 [X3 I3]]]]]]].
+  cbn [run_reader]. rewrite E1, E2, E3.
+  split; [exact R3|]. split; [congruence|]. split; [lia|]. split; [congruence|]. split; [congruence | congruence].
+Qed.
+
+(* after Close returned (no writer pending or holding) the closed channel never blocks the reader: if the reader cannot
+   move it has ended, waits for bytes of a transport that is neither closed nor failing, or is parked on the full
+   CONNECTION error queue (known finding reader-parked-on-full-conn-errch) *)
+Lemma reader_free_after_close : forall F s, inv F s -> closed s = true -> wpend s = false -> wheld s = false ->
+  reader_step s = None ->
+  rp s = REnd \/ (rp s = RRead /\ incoming s = [] /\ tclosed s || tfail s = false) \/ (rp s = RPushErr /\ ccap s <= cerr s).
+Proof.
+  intros F s [_ [_ [_ [_ [_ [Hho _]]]]]] Hc Hp Hh H.
+  unfold reader_step in H. destruct (rp s) as [| | |m it|it|it|it| |] eqn:Er; try discriminate H.
+  - right; left. destruct (incoming s) as [|x r]; [|destruct x; discriminate H].
+    destruct (tclosed s || tfail s); [discriminate H|]. repeat split; reflexivity.
+  - right; right. destruct (cerr s <? ccap s) eqn:E; [discriminate H|]. apply Z.ltb_ge in E. split; [reflexivity | exact E].
+  - rewrite Hp, Hh in H. discriminate H.
+  - congruence.
+  - left; reflexivity.
 Qed.
